@@ -106,6 +106,7 @@ CHECKS["C13"] = {
         {"test": "TestC13Header", "prop": "C13/http_header", "pkg": "./http", "quick": 60000, "thorough": 4000000, "shards_quick": 4, "shards_thorough": 8},
         {"test": "TestC14Gateway", "prop": "C13/gateway", "pkg": "./http", "quick": 30000, "thorough": 1000000, "shards_quick": 4, "shards_thorough": 8, "env": {"VERIF_ID_OVERRIDE": "C13"}},
         {"test": "TestC14Limits", "prop": "C13/limits", "pkg": "./http", "quick": 200, "thorough": 4000, "shards_quick": 4, "shards_thorough": 8, "env": {"VERIF_ID_OVERRIDE": "C13"}},
+        {"test": "TestC13Bodies", "prop": "C13/http_bodies", "pkg": "./http", "quick": 40000, "thorough": 2000000, "shards_quick": 4, "shards_thorough": 8},
         {"test": "TestC13ManagerFrames", "prop": "C13/manager_frames", "pkg": "./conn", "quick": 16000, "thorough": 600000, "shards_quick": 16, "shards_thorough": 16, "gomaxprocs": 1},
         {"fuzz": "FuzzParseFrame", "pkg": "./wire", "prop": "C13/fuzz_parseframe", "secs": 45},
         {"fuzz": "FuzzReader", "pkg": "./wire", "prop": "C13/fuzz_reader", "secs": 60},
